@@ -1,3 +1,54 @@
-From Verif Require Import Base Link.
-Theorem placeholder : True. Proof. exact I. Qed.
-Print Assumptions placeholder.
+(* C04 — cancelling one call's context ends only that call, promptly.
+   Proved here: cancelling a per-call context changes nothing of the link but the cancelled set and
+   the threads that were waiting on that context (frame property), the cancelled call's waiter
+   wakes with that context's error, and a late response for an id without a live entry is discarded
+   without effect.  The ≤ 6 own-steps progress bound of DESIGN.md is not proved (level note). *)
+From Verif Require Import Base Link LinkProofs.
+
+Theorem cancel_frame :
+  forall calls s c,
+    memN c (cancelled s) = false ->
+    exists s', step_env calls s (ECancel c) = Some s' /\
+               fatal s' = fatal s /\ bclosed s' = bclosed s /\ tbl s' = tbl s /\ ents s' = ents s /\
+               evs s' = evs s /\ closures s' = closures s /\ remotes s' = remotes s /\
+               cancelled s' = c :: cancelled s.
+Proof.
+  intros calls s c Hc. unfold step_env. rewrite Hc. eexists; split; [reflexivity|]. repeat split.
+Qed.
+Print Assumptions cancel_frame.
+
+Theorem cancelled_waiter_wakes_with_ctx_error :
+  forall calls s c i ent,
+    memN c (cancelled s) = false -> tget (threads s) (TWaiter i) = Some (WBlocked ent) ->
+    c_ctx (nth i calls (mkCall 0 1 false 0)) = c ->
+    exists s', step_env calls s (ECancel c) = Some s' /\
+               tget (threads s') (TWaiter i) = Some (WWoke (WCancelled (ECtx c))).
+Proof.
+  intros calls s c i ent Hc Ht Hctx. unfold step_env. rewrite Hc. eexists; split; [reflexivity|].
+  unfold wake; simpl. rewrite tget_map_wake_gen, Ht. simpl. rewrite Hctx. simpl.
+  rewrite N.eqb_refl. reflexivity.
+Qed.
+Print Assumptions cancelled_waiter_wakes_with_ctx_error.
+
+Theorem other_waiters_untouched :
+  forall calls s c j ent,
+    memN c (cancelled s) = false -> tget (threads s) (TWaiter j) = Some (WBlocked ent) ->
+    c_ctx (nth j calls (mkCall 0 1 false 0)) <> c ->
+    memN (c_ctx (nth j calls (mkCall 0 1 false 0))) (cancelled s) = false ->
+    le_done (ents s) (c :: cancelled s) ent = false ->
+    exists s', step_env calls s (ECancel c) = Some s' /\
+               tget (threads s') (TWaiter j) = Some (WBlocked ent).
+Proof.
+  intros calls s c j ent Hc Ht Hne Hnc Hd. unfold step_env. rewrite Hc. eexists; split; [reflexivity|].
+  unfold wake; simpl. rewrite tget_map_wake_gen, Ht. simpl.
+  assert (E : N.eqb (c_ctx (nth j calls (mkCall 0 1 false 0))) c = false) by (apply N.eqb_neq; auto).
+  rewrite E, Hnc. simpl. rewrite Hd. reflexivity.
+Qed.
+Print Assumptions other_waiters_untouched.
+
+Theorem late_response_discarded :
+  forall s n id x e,
+    lookupN id (tbl s) = None ->
+    step_pub s n (PEnter id x e) 0 = Some (with_ev (setT s (TPub n) Finished) (EvDiscard id)).
+Proof. intros s n id x e H. unfold step_pub. simpl. destruct (bclosed s); [reflexivity|]. rewrite H. reflexivity. Qed.
+Print Assumptions late_response_discarded.
